@@ -187,46 +187,85 @@ class GlobalRngSentinel:
 _TOOL_ID = 3  # sys.monitoring tool slot
 
 
-class StepBudget:
-    """logical step budget via sys.monitoring JUMP + PY_START events, enabled globally only inside the `with`.
+def codes_of(*objs):
+    """all code objects (incl. nested) of the given functions / classes / modules that live in the repository"""
+    import inspect
+    import types
+    prefix = str(core.REPO / "kappadata")
+    out, seen = [], set()
 
-    Counts backward-or-forward jumps and function starts whose code lives under the repository; exceeding `limit`
-    raises core.StepBudgetExceeded (a BaseException) inside the code under test. Used as a *termination* verdict
-    that does not depend on wall-clock time.
+    def add_code(c):
+        if id(c) in seen or not c.co_filename.startswith(prefix):
+            return
+        seen.add(id(c))
+        out.append(c)
+        for k in c.co_consts:
+            if isinstance(k, types.CodeType):
+                add_code(k)
+
+    def visit(o, depth=0):
+        if isinstance(o, types.CodeType):
+            add_code(o)
+        elif inspect.isfunction(o):
+            add_code(o.__code__)
+        elif inspect.ismethod(o):
+            add_code(o.__func__.__code__)
+        elif isinstance(o, (staticmethod, classmethod)):
+            visit(o.__func__, depth)
+        elif isinstance(o, property):
+            for f in (o.fget, o.fset, o.fdel):
+                if f is not None:
+                    visit(f, depth)
+        elif inspect.isclass(o):
+            for klass in o.__mro__:
+                if getattr(klass, "__module__", "").startswith("kappadata"):
+                    for v in vars(klass).values():
+                        if not inspect.isclass(v):
+                            visit(v, depth + 1)
+        elif inspect.ismodule(o) and depth == 0:
+            for v in vars(o).values():
+                if (inspect.isfunction(v) or inspect.isclass(v)) and getattr(v, "__module__", None) == o.__name__:
+                    visit(v, depth + 1)
+    for o in objs:
+        visit(o)
+    return out
+
+
+class StepBudget:
+    """logical step budget: sys.monitoring JUMP (+BRANCH-free) events enabled *locally* on the given code objects.
+
+    Every taken jump (loop back-edge, continue, ...) in those code objects counts one step; exceeding `limit` raises
+    core.StepBudgetExceeded (a BaseException) inside the code under test. A termination verdict that does not depend
+    on wall-clock time.
     """
 
-    def __init__(self, limit, what=""):
+    def __init__(self, limit, codes, what=""):
         self.limit = int(limit)
         self.what = what
+        self.codes = list(codes)
         self.steps = 0
-        self._prefix = str(core.REPO / "kappadata")
 
     def _on_jump(self, code, src, dst):
-        mon = sys.monitoring
-        if not code.co_filename.startswith(self._prefix):
-            return mon.DISABLE
         self.steps += 1
         if self.steps > self.limit:
-            raise core.StepBudgetExceeded(f"{self.what}: more than {self.limit} jumps in repository code (at {code.co_name}:{code.co_filename.rsplit('/', 1)[-1]})")
+            raise core.StepBudgetExceeded(f"{self.what}: more than {self.limit} jumps (in {code.co_name}, {code.co_filename.rsplit('/', 1)[-1]})")
 
     def __enter__(self):
         mon = sys.monitoring
-        try:
-            mon.use_tool_id(_TOOL_ID, "kdv-stepbudget")
-        except ValueError:
+        if mon.get_tool(_TOOL_ID) is not None:
             mon.free_tool_id(_TOOL_ID)
-            mon.use_tool_id(_TOOL_ID, "kdv-stepbudget")
+        mon.use_tool_id(_TOOL_ID, "kdv-stepbudget")
         mon.register_callback(_TOOL_ID, mon.events.JUMP, self._on_jump)
-        mon.register_callback(_TOOL_ID, mon.events.BRANCH, None)
-        mon.set_events(_TOOL_ID, mon.events.JUMP)
+        for c in self.codes:
+            mon.set_local_events(_TOOL_ID, c, mon.events.JUMP)
         return self
 
     def __exit__(self, *exc):
         mon = sys.monitoring
-        mon.set_events(_TOOL_ID, 0)
+        for c in self.codes:
+            mon.set_local_events(_TOOL_ID, c, 0)
         mon.register_callback(_TOOL_ID, mon.events.JUMP, None)
         mon.free_tool_id(_TOOL_ID)
-        mon.restart_events()
         return False
 
 
